@@ -179,6 +179,40 @@ VALUES = ['0', '127', '128', '-1', '1.5', 'abc', '', '1e3', 'nan', 'inf', '1_0',
           '(128)', '(-1)', '0x10', '٣', 'None', 'True', '1=2', '=']
 
 
+def _spells(text, m):
+    """independent reading of the text format: `type name=value ...`; every word after the first names an attribute of the
+    message once... and its value is the attribute's value - an integer literal, for data a parenthesised comma-separated list in
+    which EVERY item is an integer literal, for time an int or float literal.  True iff the text spells the message m."""
+    words = text.split()
+    if not words or words[0] != m.type:
+        return False
+    for w in words[1:]:
+        if '=' not in w:
+            return False
+        name, value = w.split('=', 1)
+        if not hasattr(m, name) or name == 'type':
+            return False
+        try:
+            if name == 'data':
+                if not (value.startswith('(') and value.endswith(')')):
+                    return False
+                items = [] if value == '()' else value[1:-1].split(',')
+                if [int(x) for x in items] != list(m.data):
+                    return False
+            elif name == 'time':
+                try:
+                    v = int(value)
+                except ValueError:
+                    v = float(value)
+                if not (v == m.time or (v != v and m.time != m.time)):
+                    return False
+            elif int(value) != getattr(m, name):
+                return False
+        except ValueError:
+            return False
+    return True
+
+
 @bounded('parse-string-exceptions', ('C14',), 'lines built from 10 type words x up to 2 arguments (14 names x 26 values, with/without "="), plus 2000 random printable strings (20000 thorough); parse_string_stream on mixed line lists')
 def parse_string_exceptions(tier, seed, only=None):
     import mido
@@ -206,6 +240,8 @@ def parse_string_exceptions(tier, seed, only=None):
             m = mido.parse_string(ln)
             ok = valid(m)
             detail = 'returned %r' % (m,)
+            if ok and not _spells(ln, m):
+                ok, detail = False, 'accepted a text that is not a spelling of the message it returned: %r' % (m,)
         except ValueError:
             ok, detail = True, ''
         except Exception as ex:
